@@ -11,7 +11,14 @@ use datafusion::datasource::MemTable;
 use datafusion::execution::context::SessionContext;
 use datafusion::prelude::SessionConfig;
 use datafusion_expr::SortExpr;
-use datafusion_physical_plan::{collect, displayable};
+use datafusion_datasource::memory::MemorySourceConfig;
+use datafusion_datasource::source::DataSourceExec;
+use datafusion_execution::TaskContext;
+use datafusion_physical_expr::expressions::Column;
+use datafusion_physical_expr::{LexOrdering, PhysicalSortExpr};
+use datafusion_physical_plan::projection::ProjectionExec;
+use datafusion_physical_plan::windows::{BoundedWindowAggExec, WindowAggExec, get_window_mode};
+use datafusion_physical_plan::{ExecutionPlan, InputOrderMode, collect, displayable};
 use futures::FutureExt;
 use rand::rngs::StdRng;
 use rand::{Rng, SeedableRng};
@@ -25,6 +32,8 @@ fn schema(xt: Ty) -> SchemaRef {
     Arc::new(Schema::new(vec![
         Field::new("id", DataType::Int64, false),
         Field::new("p", DataType::Int64, true),
+        Field::new("a", DataType::Int64, true),
+        Field::new("b", DataType::Int64, true),
         Field::new("o", DataType::Int64, true),
         Field::new("x", xt.data_type(), true),
     ]))
@@ -33,9 +42,12 @@ fn schema(xt: Ty) -> SchemaRef {
 fn batch_of(xt: Ty, rows: &[&Value]) -> RecordBatch {
     let ids: Vec<Option<i64>> = rows.iter().map(|r| r["id"].as_i64()).collect();
     let c = |k: &str| rows.iter().map(|r| mv(&r[k])).collect::<Vec<_>>();
+    // (a, b) = (p div 2, p mod 2): PARTITION BY a, b is the same partitioning as PARTITION BY p
+    let a: Vec<Option<i64>> = c("p").iter().map(|v| v.map(|x| x / 2)).collect();
+    let b: Vec<Option<i64>> = c("p").iter().map(|v| v.map(|x| x % 2)).collect();
     RecordBatch::try_new(
         schema(xt),
-        vec![mk_array(Ty::I64, &ids), mk_array(Ty::I64, &c("p")), mk_array(Ty::I64, &c("o")), mk_array(xt, &c("x"))],
+        vec![mk_array(Ty::I64, &ids), mk_array(Ty::I64, &c("p")), mk_array(Ty::I64, &a), mk_array(Ty::I64, &b), mk_array(Ty::I64, &c("o")), mk_array(xt, &c("x"))],
     )
     .unwrap()
 }
@@ -74,6 +86,8 @@ fn frame_calls(total: bool) -> Vec<(&'static str, &'static str, bool)> {
             ("first_value_in", "first_value(x) IGNORE NULLS OVER ({W})", false),
             ("last_value_in", "last_value(x) IGNORE NULLS OVER ({W})", false),
             ("nth_value_2_in", "nth_value(x, 2) IGNORE NULLS OVER ({W})", false),
+            ("nth_value_m1", "nth_value(x, -1) OVER ({W})", false),
+            ("nth_value_m2", "nth_value(x, -2) OVER ({W})", false),
         ]);
     }
     v
@@ -113,6 +127,11 @@ struct RunCfg {
     target: usize,
     sorted: bool,
     force_unbounded: bool,
+    /// Some(mode): build the window operator directly over a source arranged for that input order mode
+    direct: Option<&'static str>,
+    part_ab: bool,
+    /// enable the (off by default) WindowTopN optimizer rule
+    topn_rule: bool,
 }
 
 #[derive(Default)]
@@ -126,12 +145,31 @@ struct Stats {
     per_shape: BTreeMap<String, u64>,
     per_units: BTreeMap<String, u64>,
     engine_rejected: u64,
+    direct_skipped: u64,
+    partitioned_topk: u64,
+    limit_plans: u64,
+    direct_skip_reasons: BTreeMap<String, u64>,
+    per_mode: BTreeMap<String, u64>,
+    per_mode_detail: BTreeMap<String, u64>,
     distinct: std::collections::HashSet<u64>,
 }
 
-fn order_sql(total: bool, desc: bool) -> String {
-    let d = if desc { " DESC" } else { "" };
-    if total { format!("o{d}, id{d}") } else { format!("o{d}") }
+fn order_sql(total: bool, desc: bool, nf: bool) -> String {
+    let d = if desc { " DESC" } else { " ASC" };
+    let n = if nf { " NULLS FIRST" } else { " NULLS LAST" };
+    if total { format!("o{d}{n}, id{d}") } else { format!("o{d}{n}") }
+}
+
+/// sort keys of a row for the physical arrangement: ORDER BY o {dir} NULLS {first|last}, id {dir}
+fn okey(r: &Value, desc: bool, nf: bool) -> i64 {
+    match mv(&r["o"]) {
+        None => if nf { -1000 } else { 1000 },
+        Some(v) => if desc { -v } else { v },
+    }
+}
+fn idkey(r: &Value, desc: bool) -> i64 {
+    let id = r["id"].as_i64().unwrap();
+    if desc { -id } else { id }
 }
 
 #[allow(clippy::too_many_arguments)]
@@ -142,25 +180,25 @@ fn run_query(
     sql: &str,
     total: bool,
     desc: bool,
+    nf: bool,
     rng: &mut StdRng,
 ) -> Result<(String, Vec<RecordBatch>), String> {
-    let sc = SessionConfig::new().with_batch_size(cfg.bs).with_target_partitions(cfg.target);
+    let sc = SessionConfig::new()
+        .with_batch_size(cfg.bs)
+        .with_target_partitions(cfg.target)
+        .set_bool("datafusion.optimizer.enable_window_topn", cfg.topn_rule);
     let ctx = SessionContext::new_with_config(sc);
     let sch = schema(cfg.xt);
     let mut rows: Vec<&Value> = tbl.iter().collect();
     let mt = if cfg.sorted {
         // one partition, physically sorted like the window needs, and declared so
         let key = |r: &Value, k: &str| mv(&r[k]).unwrap_or(99);
-        rows.sort_by_key(|r| {
-            let o = if desc { -key(r, "o") } else { key(r, "o") };
-            let id = if desc { -r["id"].as_i64().unwrap() } else { r["id"].as_i64().unwrap() };
-            (key(r, "p"), o, id)
-        });
+        rows.sort_by_key(|r| (key(r, "p"), okey(r, desc, nf), idkey(r, desc)));
         let batches: Vec<RecordBatch> = rows.chunks(cfg.src_bs.max(1)).map(|c| batch_of(cfg.xt, c)).collect();
-        let se = |c: &str, asc: bool| SortExpr::new(datafusion::prelude::col(c), asc, !asc);
-        let mut order = vec![se("p", true), se("o", !desc)];
+        let se = |c: &str, asc: bool, nulls_first: bool| SortExpr::new(datafusion::prelude::col(c), asc, nulls_first);
+        let mut order = vec![se("p", true, false), se("o", !desc, nf)];
         if total {
-            order.push(se("id", !desc));
+            order.push(se("id", !desc, false));
         }
         MemTable::try_new(sch, vec![batches]).map_err(|e| format!("harness: {e}"))?.with_sort_order(vec![order])
     } else {
@@ -192,6 +230,164 @@ fn run_query(
         Ok(Err(e)) => Err(format!("execution failed: {e}")),
         Ok(Ok(x)) => Ok(x),
     }
+}
+
+
+/// Build the window operator directly: the window expressions are the ones the planner makes for `sql`
+/// (taken from the planned window node), the input is a single-partition source arranged for the requested
+/// input order mode (Sorted: by partition keys, order key; PartiallySorted: by a, order key with PARTITION BY a, b;
+/// Linear: by the order key only, partitions interleaved) and cut into seeded irregular batches.
+/// Err("SKIP: ..") = the combination is not one the engine itself accepts (counted, not a verdict).
+#[allow(clippy::too_many_arguments)]
+fn run_direct(
+    rt: &tokio::runtime::Runtime,
+    tbl: &[Value],
+    cfg: &RunCfg,
+    mode: &str,
+    sql: &str,
+    calls: &mut Vec<(&'static str, &'static str, bool)>,
+    total: bool,
+    desc: bool,
+    nf: bool,
+    rng: &mut StdRng,
+    cuts_desc: &mut String,
+) -> Result<(String, Vec<RecordBatch>), String> {
+    let sc = SessionConfig::new().with_batch_size(cfg.bs).with_target_partitions(1);
+    let ctx = SessionContext::new_with_config(sc.clone());
+    let sch = schema(cfg.xt);
+    let all: Vec<&Value> = tbl.iter().collect();
+    let mt = MemTable::try_new(Arc::clone(&sch), vec![vec![batch_of(cfg.xt, &all)]]).map_err(|e| format!("harness: {e}"))?;
+    ctx.register_table("t", Arc::new(mt)).map_err(|e| format!("harness: {e}"))?;
+    let planned = rt.block_on(async {
+        AssertUnwindSafe(async {
+            let df = ctx.sql(sql).await?;
+            df.create_physical_plan().await
+        })
+        .catch_unwind()
+        .await
+    });
+    let plan = match planned {
+        Err(_) => return Err("panic during planning".into()),
+        Ok(Err(e)) => return Err(format!("PLANNING: {e}")),
+        Ok(Ok(p)) => p,
+    };
+    let Some(proj) = plan.downcast_ref::<ProjectionExec>() else { return Err("SKIP: planned plan has no top projection".into()) };
+    let child = Arc::clone(proj.input());
+    let exprs = if let Some(w) = child.downcast_ref::<BoundedWindowAggExec>() {
+        if w.input().schema().fields() != sch.fields() {
+            return Err("SKIP: window input schema differs from the table schema".into());
+        }
+        w.window_expr().to_vec()
+    } else if let Some(w) = child.downcast_ref::<WindowAggExec>() {
+        if w.input().schema().fields() != sch.fields() {
+            return Err("SKIP: window input schema differs from the table schema".into());
+        }
+        w.window_expr().to_vec()
+    } else {
+        return Err("SKIP: projection is not directly above one window operator".into());
+    };
+    // alias -> output column of the window node
+    let mut mapping: Vec<usize> = vec![];
+    let mut kept = vec![];
+    for c in calls.iter() {
+        let hit = proj.expr().iter().find(|pe| pe.alias == c.0).and_then(|pe| pe.expr.downcast_ref::<Column>().map(|col| col.index()));
+        if let Some(i) = hit {
+            mapping.push(i);
+            kept.push(*c);
+        }
+    }
+    if kept.is_empty() {
+        return Err("SKIP: no window column is projected unchanged".into());
+    }
+    *calls = kept;
+    // arrangement of the rows
+    let mut rows: Vec<&Value> = tbl.iter().collect();
+    let pk = |r: &Value, k: &str| mv(&r[k]).unwrap_or(99);
+    let tie: HashMap<i64, u32> = rows.iter().map(|r| (r["id"].as_i64().unwrap(), rng.random::<u32>())).collect();
+    // under ORDER BY o alone the arrival order of peers is free: shuffle it (interleaves partitions differently)
+    let last = |r: &Value| if total { idkey(r, desc) } else { tie[&r["id"].as_i64().unwrap()] as i64 };
+    let col = |n: &str| -> Arc<dyn datafusion_physical_expr::PhysicalExpr> { Arc::new(Column::new(n, sch.index_of(n).unwrap())) };
+    let so = |descending: bool, nulls_first: bool| arrow::compute::SortOptions { descending, nulls_first };
+    let mut ord: Vec<PhysicalSortExpr> = vec![];
+    match mode {
+        "sorted" => {
+            rows.sort_by_key(|r| (pk(r, "p"), okey(r, desc, nf), last(r)));
+            if cfg.part_ab {
+                ord.push(PhysicalSortExpr::new(col("a"), so(false, false)));
+                ord.push(PhysicalSortExpr::new(col("b"), so(false, false)));
+            } else {
+                ord.push(PhysicalSortExpr::new(col("p"), so(false, false)));
+            }
+        }
+        "partial" => {
+            rows.sort_by_key(|r| (pk(r, "p") / 2 + if mv(&r["p"]).is_none() { 50 } else { 0 }, okey(r, desc, nf), last(r)));
+            ord.push(PhysicalSortExpr::new(col("a"), so(false, false)));
+        }
+        _ => rows.sort_by_key(|r| (okey(r, desc, nf), last(r))),
+    }
+    ord.push(PhysicalSortExpr::new(col("o"), so(desc, nf)));
+    if total {
+        ord.push(PhysicalSortExpr::new(col("id"), so(desc, false)));
+    }
+    // seeded irregular batch cuts (every boundary is cut with probability 1/2; or fixed sizes 1, 2, 3)
+    let style = rng.random_range(0..5);
+    let mut batches = vec![];
+    let mut cur: Vec<&Value> = vec![];
+    let mut sizes = vec![];
+    for (i, r) in rows.iter().enumerate() {
+        cur.push(r);
+        let cut = match style {
+            0 => true,
+            1 => cur.len() == 2,
+            2 => cur.len() == 3,
+            _ => rng.random_bool(0.5),
+        };
+        if cut || i + 1 == rows.len() {
+            sizes.push(cur.len());
+            batches.push(batch_of(cfg.xt, &cur));
+            cur.clear();
+        }
+    }
+    *cuts_desc = format!("{sizes:?}");
+    let lex = LexOrdering::new(ord).ok_or("harness: empty ordering")?;
+    let src = MemorySourceConfig::try_new(&[batches], Arc::clone(&sch), None)
+        .and_then(|m| m.try_with_sort_information(vec![lex]))
+        .map_err(|e| format!("harness: source {e}"))?;
+    let source: Arc<dyn ExecutionPlan> = DataSourceExec::from_data_source(src);
+    let got_mode = get_window_mode(exprs[0].partition_by(), exprs[0].order_by(), &source).map_err(|e| format!("harness: get_window_mode {e}"))?;
+    let Some((false, m)) = got_mode else { return Err(format!("SKIP: the engine does not accept this arrangement for the window ({got_mode:?})")) };
+    let want_ok = match (mode, &m) {
+        ("sorted", InputOrderMode::Sorted) | ("partial", InputOrderMode::PartiallySorted(_)) | ("linear", InputOrderMode::Linear) => true,
+        _ => false,
+    };
+    if !want_ok {
+        return Err(format!("SKIP: engine chose {m:?} for arrangement {mode}"));
+    }
+    let bounded = exprs.iter().all(|e| e.uses_bounded_memory());
+    let op: Arc<dyn ExecutionPlan> = if bounded {
+        Arc::new(BoundedWindowAggExec::try_new(exprs, source, m, false).map_err(|e| format!("harness: BoundedWindowAggExec {e}"))?)
+    } else if mode == "sorted" {
+        Arc::new(WindowAggExec::try_new(exprs, source, false).map_err(|e| format!("harness: WindowAggExec {e}"))?)
+    } else {
+        return Err("SKIP: an expression needs the whole partition; only the Sorted arrangement runs WindowAggExec".into());
+    };
+    let text = displayable(op.as_ref()).indent(false).to_string();
+    let tctx = Arc::new(TaskContext::default().with_session_config(sc));
+    let op2 = Arc::clone(&op);
+    let res = rt.block_on(async { AssertUnwindSafe(collect(op2, tctx)).catch_unwind().await });
+    let batches = match res {
+        Err(_) => return Err("panic during execution".into()),
+        Ok(Err(e)) => return Err(format!("execution failed: {e}")),
+        Ok(Ok(b)) => b,
+    };
+    // [id, mapped window columns...]
+    let mut out = vec![];
+    for b in batches {
+        let mut idx = vec![0usize];
+        idx.extend(mapping.iter().cloned());
+        out.push(b.project(&idx).map_err(|e| format!("harness: project {e}"))?);
+    }
+    Ok((text, out))
 }
 
 /// compare every selected column of every output row with the reference record of that row id
@@ -268,6 +464,8 @@ pub fn main() {
             let var = &variants[rng.random_range(0..variants.len())];
             let total = var["total"].as_bool().unwrap();
             let desc = var["desc"].as_bool().unwrap();
+            let nf = var["nf"].as_bool().unwrap_or(desc);
+            let direct_pick = [None, None, Some("sorted"), Some("partial"), Some("linear"), Some("linear")][rng.random_range(0..6)];
             let cfg = RunCfg {
                 xt: if rng.random_bool(0.3) { Ty::F64 } else { Ty::I64 },
                 bs: [1usize, 2, 8192][rng.random_range(0..3)],
@@ -276,15 +474,28 @@ pub fn main() {
                 target: rng.random_range(1..=3),
                 sorted: rng.random_bool(0.4),
                 force_unbounded: rng.random_bool(0.4),
+                direct: direct_pick,
+                part_ab: direct_pick == Some("partial") || rng.random_bool(0.3),
+                topn_rule: rng.random_bool(0.7),
             };
-            let w = format!("PARTITION BY p ORDER BY {}", order_sql(total, desc));
+            let pcl = if cfg.part_ab { "a, b" } else { "p" };
+            let w = format!("PARTITION BY {pcl} ORDER BY {}", order_sql(total, desc, nf));
             let forcer = if cfg.force_unbounded { format!(", count(*) OVER ({w} ROWS BETWEEN UNBOUNDED PRECEDING AND UNBOUNDED FOLLOWING) AS forcer") } else { String::new() };
             // which shape
-            let shape = ["frame", "frame", "frame", "frame", "pos", "pos", "topn", "limit"][(rot + it + rng.random_range(0..8)) % 8];
+            let shape = if cfg.direct.is_some() {
+                ["frame", "frame", "frame", "pos"][rng.random_range(0..4)]
+            } else {
+                ["frame", "frame", "frame", "frame", "pos", "pos", "topn", "limit"][(rot + it + rng.random_range(0..8)) % 8]
+            };
+            let forcer = if cfg.direct.is_some() { String::new() } else { forcer };
+            let base_cols = if cfg.direct.is_some() { "id, p, a, b, o, x" } else { "id" };
             let frames = var["frames"].as_array().unwrap();
             let (sql, calls, exp_list, want_ids, exact_rows, units): (String, Vec<(&str, &str, bool)>, &Value, Option<Vec<i64>>, Option<usize>, String) = match shape {
                 "frame" if !frames.is_empty() => {
-                    let fr = &frames[rng.random_range(0..frames.len())];
+                    // the streaming executor in PartiallySorted / Linear mode only takes frames that end before UNBOUNDED FOLLOWING
+                    let streaming_only = matches!(cfg.direct, Some("partial") | Some("linear"));
+                    let cand: Vec<&Value> = frames.iter().filter(|f| !streaming_only || f["f"]["e"]["k"] != "UF").collect();
+                    let fr: &Value = if cand.is_empty() { &frames[rng.random_range(0..frames.len())] } else { cand[rng.random_range(0..cand.len())] };
                     let wf = format!("{w} {}", frame_sql(&fr["f"]));
                     let mut calls = frame_calls(total);
                     // a random non-empty subset keeps plans varied
@@ -298,13 +509,18 @@ pub fn main() {
                         calls = frame_calls(total)[..1].to_vec();
                     }
                     let cols = calls.iter().map(|(k, s, _)| format!("{} AS {k}", s.replace("{W}", &wf))).collect::<Vec<_>>().join(", ");
-                    (format!("SELECT id, {cols}{forcer} FROM t"), calls, &fr["res"], None, Some(tbl.len()), fr["f"]["units"].as_str().unwrap().to_string())
+                    (format!("SELECT {base_cols}, {cols}{forcer} FROM t"), calls, &fr["res"], None, Some(tbl.len()), fr["f"]["units"].as_str().unwrap().to_string())
                 }
-                "topn" if total => {
+                "topn" => {
+                    // per-partition top-K: WHERE row_number/rank/dense_rank <= k (the WindowTopN rule, when enabled,
+                    // replaces the filter by a PartitionedTopKExec below the window); rank functions also with ties
                     let k = rng.random_range(1..=3i64);
-                    let calls = vec![("row_number", "", true)];
-                    let ids: Vec<i64> = var["tot"].as_array().unwrap().iter().filter(|e| e["r"]["row_number"]["v"].as_i64().unwrap() <= k).map(|e| e["id"].as_i64().unwrap()).collect();
-                    (format!("SELECT id, rn FROM (SELECT id, row_number() OVER ({w}) AS rn FROM t) WHERE rn <= {k}"), calls, &var["tot"], Some(ids), None, "topn".into())
+                    let fns: Vec<&'static str> = if total { vec!["row_number", "rank", "dense_rank"] } else { vec!["rank", "dense_rank"] };
+                    let f = fns[rng.random_range(0..fns.len())];
+                    let calls = vec![(f, "", true)];
+                    let src = if f == "row_number" { &var["tot"] } else { &var["pos"] };
+                    let ids: Vec<i64> = src.as_array().unwrap().iter().filter(|e| e["r"][f]["v"].as_i64().unwrap() <= k).map(|e| e["id"].as_i64().unwrap()).collect();
+                    (format!("SELECT * FROM (SELECT *, {f}() OVER ({w}) AS {f} FROM t) WHERE {f} <= {k}"), calls, &var["pos"], Some(ids), None, "topn".into())
                 }
                 "limit" if total => {
                     let k = rng.random_range(1..=4usize);
@@ -315,6 +531,9 @@ pub fn main() {
                 _ => {
                     // a random non-empty subset: rank-only plans stay streaming, percent_rank/cume_dist/ntile need the partition
                     let mut calls = pos_calls(total);
+                    if matches!(cfg.direct, Some("partial") | Some("linear")) {
+                        calls.retain(|c| ["rank", "dense_rank", "row_number", "lag_0", "lag_1", "lag_2", "lag_1_d", "lead_1", "lead_2_d"].contains(&c.0));
+                    }
                     let keep: Vec<bool> = calls.iter().map(|_| rng.random_bool(0.5)).collect();
                     let mut k = 0;
                     calls.retain(|_| {
@@ -326,7 +545,7 @@ pub fn main() {
                     }
                     let cols = calls.iter().map(|(k, s, _)| format!("{} AS {k}", s.replace("{W}", &w))).collect::<Vec<_>>().join(", ");
                     // pos and tot records are merged per id below
-                    (format!("SELECT id, {cols}{forcer} FROM t"), calls, &var["pos"], None, Some(tbl.len()), "pos".into())
+                    (format!("SELECT {base_cols}, {cols}{forcer} FROM t"), calls, &var["pos"], None, Some(tbl.len()), "pos".into())
                 }
             };
             // expected per id (pos + tot merged where both exist)
@@ -334,7 +553,7 @@ pub fn main() {
             for e in exp_list.as_array().unwrap() {
                 merged.insert(e["id"].as_i64().unwrap(), e["r"].clone());
             }
-            if units == "pos" && total {
+            if (units == "pos" || units == "topn" || units == "limit") && total {
                 for e in var["tot"].as_array().unwrap() {
                     let id = e["id"].as_i64().unwrap();
                     if let Some(m) = merged.get_mut(&id) {
@@ -345,12 +564,25 @@ pub fn main() {
                 }
             }
             let expected: HashMap<i64, &Value> = merged.iter().map(|(k, v)| (*k, v)).collect();
-            let res = run_query(&rt, tbl, &cfg, &sql, total, desc, &mut rng);
+            let mut calls = calls;
+            let mut cuts = String::new();
+            let res = match cfg.direct {
+                Some(mode) => run_direct(&rt, tbl, &cfg, mode, &sql, &mut calls, total, desc, nf, &mut rng, &mut cuts),
+                None => run_query(&rt, tbl, &cfg, &sql, total, desc, nf, &mut rng),
+            };
+            if let (Some(mode), Err(e)) = (cfg.direct, &res) {
+                if e.starts_with("SKIP:") {
+                    stats.direct_skipped += 1;
+                    *stats.direct_skip_reasons.entry(format!("{mode}: {}", e.chars().take(70).collect::<String>())).or_default() += 1;
+                    continue;
+                }
+            }
             stats.executions += 1;
             *stats.per_shape.entry(if units == "ROWS" || units == "RANGE" || units == "GROUPS" { format!("frame {units}") } else { units.clone() }).or_default() += 1;
             let describe = |msg: String, plan: &str| {
                 json!({"kind": "C09", "sql": sql, "x_type": cfg.xt.name(), "batch_size": cfg.bs, "source_batch_size": cfg.src_bs,
                 "source_partitions": cfg.parts, "target_partitions": cfg.target, "sorted_source": cfg.sorted, "message": msg, "plan": plan,
+                "direct_mode": cfg.direct, "batch_cuts": cuts,
                 "case_index": case["idx"].as_u64().unwrap_or(ci as u64), "seed": seed})
             };
             match res {
@@ -365,6 +597,10 @@ pub fn main() {
                     }
                 }
                 Ok((text, mut batches)) => {
+                    if units == "topn" {
+                        // SELECT *: keep [id, the ranking column]
+                        batches = batches.iter().map(|b| b.project(&[0, b.num_columns() - 1]).unwrap()).collect();
+                    }
                     let has_b = text.contains("BoundedWindowAggExec");
                     let has_p = text.replace("BoundedWindowAggExec", "").contains("WindowAggExec");
                     if has_b {
@@ -376,17 +612,32 @@ pub fn main() {
                     if has_b && has_p {
                         stats.both += 1;
                     }
+                    if text.contains("PartitionedTopKExec") {
+                        stats.partitioned_topk += 1;
+                    }
+                    if units == "limit" && (text.contains("fetch=") || text.contains("GlobalLimitExec") || text.contains("LocalLimitExec")) {
+                        stats.limit_plans += 1;
+                    }
                     if cfg.sorted && !text.contains("SortExec") {
                         stats.sorted_source_no_sort += 1;
                     }
                     *stats.per_units.entry(format!("{} {}", units, if has_b { "bounded" } else { "whole-partition" })).or_default() += 1;
+                    if has_b {
+                        let m = if text.contains("mode=[Linear]") { "Linear" } else if text.contains("mode=[PartiallySorted") { "PartiallySorted" } else { "Sorted" };
+                        let how = if cfg.direct.is_some() { "direct" } else { "planned" };
+                        let dir = format!("{}{}", if desc { "DESC" } else { "ASC" }, if nf { " NULLS FIRST" } else { " NULLS LAST" });
+                        *stats.per_mode.entry(format!("{m} ({how})")).or_default() += 1;
+                        *stats.per_mode_detail.entry(format!("{m} {units} {dir}")).or_default() += 1;
+                    } else if cfg.direct.is_some() {
+                        *stats.per_mode.entry("WindowAggExec (direct)".into()).or_default() += 1;
+                    }
                     if corrupt && !batches.is_empty() && batches[0].num_rows() > 0 {
                         let b = batches[0].slice(0, batches[0].num_rows() - 1);
                         batches[0] = b;
                     }
                     use std::hash::{Hash, Hasher};
                     let mut h = std::collections::hash_map::DefaultHasher::new();
-                    (&sql, cfg.xt.name(), cfg.bs, cfg.src_bs, cfg.parts, cfg.target, cfg.sorted, case["tbl"].to_string()).hash(&mut h);
+                    (&sql, cfg.xt.name(), cfg.bs, cfg.src_bs, cfg.parts, cfg.target, cfg.sorted, cfg.direct, &cuts, case["tbl"].to_string()).hash(&mut h);
                     stats.distinct.insert(h.finish());
                     if let Err(m) = compare(cfg.xt, &calls, &expected, &batches, want_ids.as_deref(), exact_rows, &mut stats) {
                         if m.starts_with("harness:") {
@@ -410,6 +661,12 @@ pub fn main() {
         "sorted_source_plans_without_SortExec": stats.sorted_source_no_sort,
         "per_shape": stats.per_shape,
         "per_units_and_executor": stats.per_units,
+        "bounded_executor_runs_per_input_order_mode": stats.per_mode,
+        "bounded_executor_runs_per_mode_units_direction": stats.per_mode_detail,
+        "direct_combinations_not_accepted_by_engine": stats.direct_skipped,
+        "direct_skip_reasons": stats.direct_skip_reasons,
+        "plans_with_PartitionedTopKExec": stats.partitioned_topk,
+        "limit_shape_plans_with_a_limit_or_fetch": stats.limit_plans,
         "engine_rejected_at_planning": stats.engine_rejected,
         "engine_rejected_samples": rejected_samples,
         "distinct_nontrivial": stats.distinct.len(),
